@@ -123,7 +123,15 @@ func (x *Exec) step(fr *Frame, ins ssa.Instruction, st *State) {
 	case *ssa.Range:
 		xv := x.term(fr, in.X)
 		if mt, ok := in.X.Type().Underlying().(*types.Map); ok {
-			fr.vals[in] = &mapIter{m: xv, mt: mt}
+			it := &mapIter{m: xv, mt: mt, id: x.w.Fresh("iter", SInt)}
+			dn, _, _, ks, _ := x.mapComps(mt)
+			it.d0 = ts.Select(x.comp(st, dn, SArr(SInt, SArr(ks, SBool))), xv)
+			vn, cn, _ := x.visComps(mt)
+			vs := SArr(SInt, SArr(ks, SBool))
+			x.compSort[vn], x.compSort[cn] = vs, SArr(SInt, SInt)
+			st.heap[vn] = ts.Store(x.comp(st, vn, vs), it.id, ts.App("(as const "+string(SArr(ks, SBool))+")", SArr(ks, SBool), ts.False()))
+			st.heap[cn] = ts.Store(x.comp(st, cn, SArr(SInt, SInt)), xv, it.id)
+			fr.vals[in] = it
 		} else {
 			fr.vals[in] = &mapIter{str: xv, isStr: true}
 		}
@@ -819,6 +827,20 @@ func (x *Exec) next(fr *Frame, in *ssa.Next, st *State) Value {
 	vv := ts.Select(x.comp(st, vn, SArr(SInt, SArr(ks, vs))), it.m)
 	k := x.w.Fresh("next_k", ks)
 	x.assume(ts.Implies(okv, ts.And(ts.Not(ts.Eq(it.m, ts.IntLit(0))), ts.Select(d, k))))
+	if it.id != nil {
+		// ghost visited set: every entry that was present when the iteration
+		// started and is never deleted is produced exactly once
+		vn, _, _ := x.visComps(it.mt)
+		vsort := SArr(SInt, SArr(ks, SBool))
+		vh := x.comp(st, vn, vsort)
+		vis := ts.Select(vh, it.id)
+		st.heap[vn] = ts.Ite(okv, ts.Store(vh, it.id, ts.Store(vis, k, ts.True())), vh)
+		if lp := fr.loops.headers[in.Block()]; lp != nil && !x.loopMayDelete(lp, it.mt) {
+			x.assume(ts.Implies(okv, ts.Not(ts.Select(vis, k))))
+			b := ts.Bound("vk", ks)
+			x.assume(ts.Implies(ts.Not(okv), ts.Quant("forall", []*Term{b}, ts.Implies(ts.Select(it.d0, b), ts.Select(vis, b)))))
+		}
+	}
 	val := ts.Select(vv, k)
 	x.assume(x.w.validFacts(k, it.mt.Key(), st.alloc, 0))
 	x.assume(x.w.validFacts(val, it.mt.Elem(), st.alloc, 0))
